@@ -1,12 +1,67 @@
 (* C01 -- the typed parser recognises exactly what pest recognises, consuming the same prefix. Statements only.
-   SPEC = Model/PegSpec.v (validated against the real pest parser on every explored case);
-   typed parser = Sem.v on the generator model's output (Model/Translate.v, Model/GenEnv.v). *)
+   SPEC = Model/PegSpec.v (validated against the real pest parser on every explored case: verdict, offset, Pairs);
+   typed parser = Sem.v (the runtime, tied by T2) on the generator model's output (Model/Translate.v, tied by V1). *)
 From Coq Require Import List NArith.
 From PT Require Import Model.Base Model.Stack Model.Texpr Model.Sem Model.Aparse Model.Ast Model.Translate Model.PegSpec Model.GenEnv.
-From PT Require Import Proofs.GenWitness.
+From PT Require Import Proofs.GenWitness Proofs.PegSimBase Proofs.PegSimFwd Proofs.RefineCor Proofs.PegMain.
 Import ListNotations.
 
-(* known finding (class WsNonAtomic, F2): the unrestricted statement is false of the faithful model *)
+(* Main theorem.  For every grammar [g] (pest_meta's optimized AST) whose WHITESPACE / COMMENT cannot tell the
+   inherited atomicity ([ws_ok], the complement of the known finding F2), every rule [r] that may be referred to
+   ([callable]: not the EOI index; WHITESPACE / COMMENT only when atomicity-insensitive), every input [I],
+   every Unicode predicate table, and every pair of fuels on which the PEG spec and the reference run end:
+   the typed prefix parse [try_parse_partial] (the REAL parse path of Sem.v, with pest::Stack modelled bug for
+   bug) succeeds exactly when the spec does, stops at the same offset and leaves the same stack contents; it
+   fails when the spec fails; and the spec never panics.  ([aparse <> APanic]: the run trips no debug assertion --
+   for valid UTF-8 inputs that is C09.) *)
+Theorem C01_typed_is_peg : forall g eoi I pred,
+  ws_ok g = true -> eoi_fresh eoi g = true ->
+  forall r, callable eoi g r = true -> forall n m,
+  peg_entry (penv_of eoi g I pred) n r <> PFuel ->
+  aparse (env_of eoi g I pred) m true (TRule r SkOn) (i_start I) [] <> AFuel ->
+  aparse (env_of eoi g I pred) m true (TRule r SkOn) (i_start I) [] <> APanic ->
+  match peg_entry (penv_of eoi g I pred) n r with
+  | POk pos stk _ => exists t st', try_parse_partial (env_of eoi g I pred) m r = Ok (pos, t) st' /\ cache (Sem.stk st') = stk
+  | PFail => exists st', try_parse_partial (env_of eoi g I pred) m r = Fail st'
+  | PPanic => False
+  | PFuel => False
+  end.
+Proof. exact typed_is_peg. Qed.
+Print Assumptions C01_typed_is_peg.
+
+Theorem C01_accepts_iff : forall g eoi I pred,
+  ws_ok g = true -> eoi_fresh eoi g = true ->
+  forall r, callable eoi g r = true -> forall n m,
+  peg_entry (penv_of eoi g I pred) n r <> PFuel ->
+  aparse (env_of eoi g I pred) m true (TRule r SkOn) (i_start I) [] <> AFuel ->
+  aparse (env_of eoi g I pred) m true (TRule r SkOn) (i_start I) [] <> APanic ->
+  forall pos,
+  (exists t st', try_parse_partial (env_of eoi g I pred) m r = Ok (pos, t) st') <->
+  (exists stk toks, peg_entry (penv_of eoi g I pred) n r = POk pos stk toks).
+Proof. exact typed_accepts_iff_peg. Qed.
+Print Assumptions C01_accepts_iff.
+
+(* the forward simulation for every expression in every context (what the main theorem is an instance of) *)
+Theorem C01_simulation : forall g eoi I pred,
+  ws_ok g = true -> eoi_fresh eoi g = true -> forall n,
+  forall at_ la e pos stk k inh,
+  ctx e k inh at_ -> refs_ok eoi g e = true ->
+  exists m, forall m', m <= m' ->
+    fsim (peg (penv_of eoi g I pred) n at_ la e pos stk) (aparse (env_of eoi g I pred) m' inh (tr eoi k e) pos stk).
+Proof. exact (fun g eoi I pred Hws Heoi n => proj1 (peg_fwd g eoi I pred Hws Heoi n)). Qed.
+Print Assumptions C01_simulation.
+
+(* the premises are satisfiable, on an accepted and on a rejected input *)
+Theorem C01_example :
+  ws_ok ex_g = true /\ eoi_fresh 0 ex_g = true /\ callable 0 ex_g 1 = true /\
+  (exists stk toks, peg_entry (penv_of 0 ex_g (inp_of_str ex_in1) (fun _ _ => false)) 40 1 = POk 7 stk toks) /\
+  is_aok (aparse (env_of 0 ex_g (inp_of_str ex_in1) (fun _ _ => false)) 40 true (TRule 1 SkOn) 0 []) = true /\
+  peg_entry (penv_of 0 ex_g (inp_of_str ex_in2) (fun _ _ => false)) 40 1 = PFail /\
+  aparse (env_of 0 ex_g (inp_of_str ex_in2) (fun _ _ => false)) 40 true (TRule 1 SkOn) 0 [] = AFail.
+Proof. exact typed_is_peg_example. Qed.
+Print Assumptions C01_example.
+
+(* known finding (class WsNonAtomic, F2): without [ws_ok] the statement is false of the faithful model *)
 Theorem C01_refuted_ws :
   (match tparse (env_of 0 wg (inp_of_str w_input) no_pred) 30 true (TRule 1 SkOn) 0 st0 with
    | Ok (p, _) _ => p = 4 | _ => False end) /\
